@@ -91,6 +91,9 @@ def shard(args):
         base = bases.bban(c, f)
         fam, nres = residue_family(country, base)
         residues_total += nres
+        sp = bases.self_prefixed(country)
+        if sp and f == "distinct":
+            fam = fam + [sp]  # a BBAN that itself starts like an IBAN of this country
         if nres < 97:
             part.stat("families_not_residue_complete")
         for bi, b in enumerate(fam):
